@@ -47,10 +47,39 @@ Fixpoint crash_run (cfg : config) (g : N) (s : st) (ops : list op) (k : nat)
   | o :: ops' => crash_run cfg g (fst (step cfg s o)) ops' (S k) obs
   end.
 
-Record ccase := mkCCase { cc_cfg : config; cc_genesis : hdr; cc_ops : list op; cc_obs : list (nat * list cobs) }.
+(* What a Load reports below its horizon comes from the main header files, above it from the
+   branch files named by the index: the reported chain is the splice of the two at the horizon
+   P = (height of the tip under the index) - prune depth.  The splice is the chain under the index
+   exactly when the two agree below P (CrashProofs.splice_sound).  Crash points of an operation
+   that rewrites the file history with a chain that does NOT agree with the chain under the last
+   index below that horizon are the known finding D27; the harness judges them in a case of their
+   own, and has to justify every such exclusion here. *)
+Definition horizon (index_chain : list N) (d : Z) : nat := Z.to_nat (Z.of_nat (length index_chain) - 1 - d).
+Fixpoint listN_eqb' (a b : list N) : bool :=
+  match a, b with
+  | [], [] => true
+  | x :: a', y :: b' => (x =? y) && listN_eqb' a' b'
+  | _, _ => false
+  end.
+Definition agree_below (hist mem : list N) (p : nat) : bool := listN_eqb' (firstn p hist) (firstn p mem).
+Definition splice (hist mem : list N) (p : nat) : list N := firstn p hist ++ skipn p mem.
+
+(* (operations completed, chain in the main files before, chain under the last index, chain being
+   written, prune depth of the Load) *)
+Definition excl := (nat * (list N * list N * list N * Z))%type.
+Definition excl_justified (e : excl) : bool :=
+  let '(_, (file, index, new, d)) := e in
+  match index with
+  | [] => false
+  | _ => negb (agree_below file index (horizon index d)) || negb (agree_below new index (horizon index d))
+  end.
+
+Record ccase := mkCCase { cc_cfg : config; cc_genesis : hdr; cc_ops : list op;
+                          cc_obs : list (nat * list cobs); cc_excl : list excl }.
 
 Definition ccase_ok (c : ccase) : bool :=
-  crash_run (cc_cfg c) (h_hash (cc_genesis c)) (init (cc_genesis c)) (cc_ops c) 0 (cc_obs c).
+  crash_run (cc_cfg c) (h_hash (cc_genesis c)) (init (cc_genesis c)) (cc_ops c) 0 (cc_obs c) &&
+  forallb excl_justified (cc_excl c).
 Definition cmismatches (cs : list ccase) : list N := failing (map ccase_ok cs).
 
 (* diagnostics: (operations completed, crash point) of every rejected observation *)
